@@ -14,6 +14,7 @@ import Model.Proto.Mesh
 import Model.Proto.Surveyor
 import Model.Proto.Req
 import Model.Proto.Xreq
+import Model.Proto.RawRecv
 import Model.Core
 import Model.Handshaker
 import Model.AcceptQ
@@ -138,6 +139,7 @@ structure State where
   surv : List Surveyor.State := [Surveyor.init]
   req : List Req.State := [Req.init]
   xreq : List Xreq.State := [Xreq.init]
+  rawq : List RawRecv.State := [RawRecv.init]
   core : List Core.State := [Core.init]
   hs : List Handshaker.State := [Handshaker.init]
   wsl : List AcceptQ.State := [AcceptQ.init]
@@ -157,6 +159,7 @@ def step (s : State) (tag : String) (args : List String) (o : String) : Option (
     | "m.surv" => some ({ s with surv := [Surveyor.init], stuck := false }, true, "-", "new")
     | "m.req" => some ({ s with req := [Req.init], stuck := false }, true, "-", "new")
     | "m.xreq" => some ({ s with xreq := [Xreq.init], stuck := false }, true, "-", "new")
+    | "m.rawq" => some ({ s with rawq := [RawRecv.init], stuck := false }, true, "-", "new")
     | "m.core" => some ({ s with core := [Core.init], stuck := false }, true, "-", "new")
     | "m.ledger" => some ({ s with ledger := [{}], stuck := false }, true, "-", "new")
     | "m.hs" => some ({ s with hs := [Handshaker.init], stuck := false }, true, "-", "new")
@@ -206,6 +209,9 @@ def step (s : State) (tag : String) (args : List String) (o : String) : Option (
   | "m.xreq" =>
     let (cs, exp) := advance s.xreq Xreq.step args o
     if cs.isEmpty then some ({ s with stuck := true }, false, exp, opName) else some ({ s with xreq := cs }, true, o, opName)
+  | "m.rawq" =>
+    let (cs, exp) := advance s.rawq RawRecv.step args o
+    if cs.isEmpty then some ({ s with stuck := true }, false, exp, opName) else some ({ s with rawq := cs }, true, o, opName)
   | "m.req" =>
     let (cs, exp) := advance s.req Req.step args o
     if cs.isEmpty then some ({ s with stuck := true }, false, exp, opName) else some ({ s with req := cs }, true, o, opName)
